@@ -90,6 +90,10 @@ impl WorkTracker {
 pub struct DirtyTask<C: Config> {
     query_id: QueryID,
 
+    /// Keeps going through projection callers instead of stopping at them.
+    /// Firewall callers still stop the propagation.
+    through_projections: bool,
+
     // ManuallyDrop ensures we can drop write_tx before calling done()
     // to avoid race condition where waiter wakes before Arc is released
     write_tx: ManuallyDrop<Arc<Mutex<WriteTransaction<C>>>>,
@@ -100,11 +104,16 @@ pub struct DirtyTask<C: Config> {
 impl<C: Config> DirtyTask<C> {
     pub const fn query_id(&self) -> &QueryID { &self.query_id }
 
+    pub const fn through_projections(&self) -> bool {
+        self.through_projections
+    }
+
     pub fn propagate_to(&self, query_id: QueryID) -> Self {
         self.work_tracker.new_task();
 
         Self {
             query_id,
+            through_projections: self.through_projections,
             write_tx: ManuallyDrop::new((*self.write_tx).clone()),
             work_tracker: self.work_tracker.clone(),
             stripped_buffer: self.stripped_buffer.clone(),
@@ -154,11 +163,16 @@ impl<C: Config> Batch<C> {
         self.work_traker.notify.clone().notified_owned()
     }
 
-    pub fn new_task(&self, query_id: QueryID) -> DirtyTask<C> {
+    pub fn new_task(
+        &self,
+        query_id: QueryID,
+        through_projections: bool,
+    ) -> DirtyTask<C> {
         self.work_traker.new_task();
 
         DirtyTask {
             query_id,
+            through_projections,
             write_tx: ManuallyDrop::new((*self.write_tx).clone()),
             stripped_buffer: self.stripped_buffer.clone(),
             work_tracker: self.work_traker.clone(),
@@ -194,6 +208,7 @@ impl<C: Config> Clone for DirtyTask<C> {
 
         Self {
             query_id: self.query_id,
+            through_projections: self.through_projections,
             write_tx: ManuallyDrop::new((*self.write_tx).clone()),
             work_tracker: self.work_tracker.clone(),
             stripped_buffer: self.stripped_buffer.clone(),
